@@ -301,6 +301,19 @@ impl Hist {
                             }
                         }
                         st.label("op:AgeSnapshot(wall-clock-stepped-forward)");
+                    } else if self.clock_steps && self.drv.ext.is_none() && !self.future_stamps && (self.salt as usize + idx) % 3 == 1 {
+                        // ... or there and back: the clock runs ahead for a while, a client nobody
+                        // else knows syncs meanwhile (a version and a snapshot of its own), then
+                        // the clock is corrected.  For everybody else nothing has happened.
+                        let j = [1i64, 4, 30][(self.salt as usize / 3 + idx) % 3];
+                        crate::clock::step(j * 86400);
+                        let visitor = crate::case::client_uuid(self.salt ^ 0x5A5A, 200);
+                        if let Outcome::Accepted { id, .. } = self.drv.add_version(visitor, Uuid::nil(), b"while the clock ran ahead") {
+                            let _ = self.drv.add_snapshot(visitor, id, b"snapshot taken while the clock ran ahead");
+                            let _ = self.drv.add_version(visitor, id, b"and one more");
+                        }
+                        crate::clock::step(-j * 86400);
+                        st.label("op:AgeSnapshot(wall-clock-ahead-and-corrected)");
                     }
                     if *days >= 60000 {
                         st.label("op:AgeSnapshot(calendar-landmark)");
@@ -322,6 +335,19 @@ impl Hist {
                 let p = self.resolve(parent);
                 self.know(p);
                 let bytes: Data = Arc::new(self.body_for(data, st));
+                if self.clock_steps && !self.future_stamps && self.drv.via == Via::Http && self.drv.ext.is_none() && bytes.len() >= 2 && (self.salt as usize + idx) % 11 == 5 {
+                    // the wall clock jumps forward while this upload's body is in transit: what the
+                    // answer says about the snapshot's age is the age at acceptance
+                    let j = [1i64, 3][idx % 2];
+                    self.drv.step_during_upload = j;
+                    let ids: Vec<Uuid> = self.model.clients.keys().copied().collect();
+                    for id in ids {
+                        if let Some(s) = &mut self.model.client_mut(id).snap {
+                            s.days += j;
+                        }
+                    }
+                    st.label("op:AddVersion(wall-clock-stepped-during-the-upload)");
+                }
                 self.do_add_version(idx, op, c, p, bytes, st)
             }
             Op::GetChild { c, parent } => {
